@@ -379,7 +379,7 @@ def _row_coverage(cover):
         for name, cls in classes.items():
             rows = {(t[0].method.__name__, t[1].method.__name__) for t in cls.m._automaton._transitions}
             seen = {(s, i) for (n, s, i) in cover if n == name}
-            out[name] = dict(rows=len(rows), exercised=len(rows & seen), not_exercised=sorted("%s x %s" % r for r in rows - seen)[:12])
+            out[name] = dict(rows=len(rows), exercised=len(rows & seen), not_exercised=sorted("%s x %s" % r for r in rows - seen))
     except Exception as e:  # coverage is informational only
         out["error"] = repr(e)
     return out
